@@ -532,9 +532,6 @@ func (in *interp) invoke(caller *frame, fn *funcInfo, this *object, args []value
 			fn = alt
 		}
 	}
-	if fn.invalidC {
-		unsupp("public non-coroutine %s has a result and a checked argument: wuffs-c emits invalid C", fn.name)
-	}
 	if fn.pub {
 		// writeFuncImplSelfMagicCheck
 		bad := this.magic != magicOK
@@ -558,7 +555,10 @@ func (in *interp) invoke(caller *frame, fn *funcInfo, this *object, args []value
 				if fn.effect.Coroutine() {
 					return value{k: vkStatus, s: stBadArgument}
 				}
-				return value{k: vkNone}
+				// Non-coroutines return the zero value. (With a non-empty
+				// result wuffs-c emits C that does not compile: see
+				// Program.CGenIssues.)
+				return in.zeroOut(fn)
 			}
 		}
 		if fn.effect.Coroutine() {
